@@ -52,9 +52,11 @@ void run_cvc(uint64_t seed, const sk_mask* mask, sk_result* out)
 	unsigned depth, i, nval, v;
 	size_t n;
 	err_t code;
-	int chain_ok = 1, with_rng;
+	int chain_ok = 1, with_rng, afail = 0;
+	sk_rng fr;
 	(void)mask;
 	sk_rng_seed(&r, seed);
+	sk_rng_seed(&fr, sk_mix(seed, 0xa110c));
 	sk_heap_reset(sk_u64(&r));
 	sk_rng_seed(&tape.r, sk_u64(&r)), tape.mode = 0, tape.calls = 0, tape.flip_call = 0;
 	depth = 1 + sk_below(&r, 3);
@@ -321,8 +323,28 @@ void run_cvc(uint64_t seed, const sk_mask* mask, sk_result* out)
 			}
 			break;
 		}
-		code = btokCVCVal(cert, cl, ca->cert, ca->certlen, date);
-		sk_text(out, "validate level %u on day %u (window %u..%u) fault=%d -> rc=%u", lvl, day, a->from, a->until, fault, (unsigned)code);
+		/* compound fault: one transient allocation failure inside the verification (own stream of
+		   draws, so that the histories of a seed stay what they were).  Whatever fails, a
+		   certificate that must be refused is still refused; a good one may then fail. */
+		{
+			long failed0 = sk_heap_failed();
+			afail = 0;
+			if (sk_chance(&fr, 1, 3))
+				sk_heap_fail_at(1 + (long)sk_below(&fr, 5), 0);
+			code = btokCVCVal(cert, cl, ca->cert, ca->certlen, date);
+			sk_heap_fail_at(0, 0);
+			if (sk_heap_failed() != failed0)
+				afail = 1, sk_count("fault.cvc_allocation_failure_during_validation", 1);
+		}
+		if (afail && expect && code != ERR_OK)
+		{
+			sk_text(out, "validate level %u on day %u: allocation failure, rc=%u", lvl, day, (unsigned)code);
+			sk_dg_u64(&out->digest, code);
+			continue;
+		}
+		if (afail && !expect)
+			sk_count("probe.cvc_refusal_checked_under_allocation_failure", 1);
+		sk_text(out, "validate level %u on day %u (window %u..%u) fault=%d%s -> rc=%u", lvl, day, a->from, a->until, fault, afail ? " + one failed allocation" : "", (unsigned)code);
 		sk_dg_u64(&out->digest, code);
 		sk_count(in_window ? "probe.cvc_date_in_window" : "fault.cvc_clock_outside_validity", 1);
 		if ((code == ERR_OK) != expect)
@@ -337,9 +359,25 @@ void run_cvc(uint64_t seed, const sk_mask* mask, sk_result* out)
 		{
 			btok_cvc_t cvca, cvc;
 			err_t c2 = btokCVCUnwrap(&cvca, ca->cert, ca->certlen, 0, 0);
+			int afail2 = 0;
 			if (c2 == ERR_OK)
+			{
+				long failed0 = sk_heap_failed();
+				if (!expect && sk_chance(&fr, 1, 3))
+					sk_heap_fail_at(1 + (long)sk_below(&fr, 3), 0);
 				c2 = btokCVCVal2(&cvc, cert, cl, &cvca, date);
-			if ((c2 == ERR_OK) != (code == ERR_OK))
+				sk_heap_fail_at(0, 0);
+				afail2 = sk_heap_failed() != failed0;
+			}
+			if (afail2)
+				sk_count("fault.cvc_allocation_failure_during_validation", 1);
+			if ((afail || afail2) && !expect && c2 == ERR_OK)
+			{
+				sk_heap_disarm();
+				sk_violate(out, "cvc_invalid_cert_accepted", "btokCVCVal2 returned ERR_OK for a certificate that must be refused (fault %d) when one allocation failed", fault);
+				return;
+			}
+			if (!afail && !afail2 && (c2 == ERR_OK) != (code == ERR_OK))
 			{
 				sk_heap_disarm();
 				sk_violate(out, "cvc_val_val2_disagree", "btokCVCVal gives %u, btokCVCVal2 gives %u for the same certificate, issuer and date", (unsigned)code, (unsigned)c2);
